@@ -81,7 +81,7 @@ def mk(e):
         kw = e[3] if len(e) > 3 and e[3] else None
         if kw:
             from immutabledict import immutabledict
-            return P.CallWithKwargs(fn, args, immutabledict({k: mk(v) for k, v in sorted(kw.items())}))
+            return P.CallWithKwargs(fn, args, immutabledict({k: mk(v) for k, v in kw.items()}))      # keyword order as written
         return P.Call(fn, args)
     if t == "if":
         return P.If(mk(e[1]), mk(e[2]), mk(e[3]))
@@ -106,7 +106,7 @@ def build_statements(prog):
         else:
             st = lang.AssignFunctionCall(assignees=tuple(s["lhs"]), function_id="<func>" + s["fn"],
                                          parameters=tuple(mk(a) for a in s["args"]),
-                                         kw_parameters={k: mk(v) for k, v in sorted((s.get("kw") or {}).items())},
+                                         kw_parameters={k: mk(v) for k, v in (s.get("kw") or {}).items()},
                                          condition=cond, id=s["id"], depends_on=deps)
         out.append(st)
         prev = s["id"]
@@ -1141,6 +1141,15 @@ def bounded(payload):
                     {"id": "temp", "k": "assign", "lhs": "x2", "sub": None, "rhs": ["+", V(look), V(tagged)],
                      "cond": None, "loops": []}]})
                 parts["lookalike_self_dependency_programs"] += 1
+    # 0b. calls with several keyword arguments written in non-alphabetical order (values must stay with their names)
+    for kws in ({"b": ["+", V("y"), ["c", 1]], "a": ["*", V("x"), ["c", 2]]},
+                {"scale": V("y"), "offset": V("x")},
+                {"c": ["call", "g", [V("y"), ["c", 1]], {}], "a": V("x"), "b": ["+", V("x"), V("y")]}):
+        for mode in ("flat", "ast"):
+            consider({"mode": mode, "valseed": 7, "nvals": 4, "stmts": [
+                {"id": "s0", "k": "assign", "lhs": "z", "sub": None, "rhs": ["call", "f", [V("x")], dict(kws)], "cond": None, "loops": []},
+                {"id": "s1", "k": "call", "lhs": ["w"], "fn": "g", "args": [V("z")], "kw": dict(kws), "cond": ["<", V("y"), ["c", 2]]}]})
+            parts["multi_keyword_call_programs"] += 1
     # 1. exhaustive family: expression shapes up to `depth` x statement forms x colliding leaf names
     tpls = shapes(depth)
     parts["shape_templates"] = len(tpls)
